@@ -24,7 +24,26 @@ CORR_ONLY = ["order of the two recursive calls (unspecified by C++; model = left
 ASSUMPTIONS = ["the user integrand is a pure function (the model takes f : Rat -> Rat)",
                "estimator-regular: f'''' keeps one sign and max|f''''|/min|f''''| <= 4 on the interval",
                "libm exp/cosh/pow are accurate to a few ulp (reference: mpmath at 60 digits)"]
-TRUSTED = ["mpmath closed-form antiderivatives as the reference for the transcendental families"]
+TRUSTED = ["translators/constants.py (regenerates lean/LpModel/C03/Constants.lean from the anchored numeric literals of the current source before every lake build; a missing anchor falls back to the committed default and is recorded in notes.pre_build.anchor_missing)",
+           "mpmath closed-form antiderivatives as the reference for the transcendental families"]
+
+# ---------------------------------------------------------------------------------------------------
+# translator tie (DESIGN.md §4.5): the numeric literals of src/Integration.cpp the model depends on
+# ---------------------------------------------------------------------------------------------------
+
+def _constants_translator(verif):
+    import importlib.util, os
+    spec = importlib.util.spec_from_file_location("lp_constants_tr", os.path.join(verif, "translators", "constants.py"))
+    m = importlib.util.module_from_spec(spec)
+    spec.loader.exec_module(m)
+    return m
+
+
+def pre_build(c):
+    """regenerate lean/LpModel/C03/Constants.lean from the repository under check (called by check.py with
+    the lake lock held, before `lake build`); a missing anchor is recorded, never an alarm"""
+    return _constants_translator(c["verif"]).regenerate("C03", c["repo"], c["lean"])
+
 
 TRACE_MAX = 1100        # abscissae lists are compared element-wise up to this many evaluations
 MARGIN = Fraction(1, 2 ** 30)
